@@ -124,6 +124,9 @@ fn plan(tier: Tier) -> Vec<(Cfg, &'static str)> {
             for k in ["K1", "K4"] {
                 p.push((by(k), "F10"));
             }
+            for k in ["K1", "K4"] {
+                p.push((by(k), "F11"));
+            }
             for k in ["K11", "K10"] {
                 p.push((by(k), "F9c"));
             }
@@ -134,8 +137,8 @@ fn plan(tier: Tier) -> Vec<(Cfg, &'static str)> {
                 if c.target == 65536 {
                     continue;
                 }
-                for f in ["F1", "F2", "F3", "F4", "F5", "F6", "F6c", "FS", "F8", "F9", "F9b", "F9c", "F10"] {
-                    if c.target == 1024 && (f == "F2" || f == "F3" || f == "F4" || f == "F8" || f == "F9" || f == "F9b" || f == "F9c" || f == "F10") {
+                for f in ["F1", "F2", "F3", "F4", "F5", "F6", "F6c", "FS", "F8", "F9", "F9b", "F9c", "F10", "F11"] {
+                    if c.target == 1024 && (f == "F2" || f == "F3" || f == "F4" || f == "F8" || f == "F9" || f == "F9b" || f == "F9c" || f == "F10" || f == "F11") {
                         continue;
                     }
                     // the fragmented-dedup families run under the configurations made for them only
@@ -149,7 +152,7 @@ fn plan(tier: Tier) -> Vec<(Cfg, &'static str)> {
                         continue;
                     }
                     if c.name.starts_with("K9") || c.name.starts_with("K10") || c.name.starts_with("K11") {
-                        if f != "F9" && f != "F9b" && f != "F9c" && f != "F3" && f != "F1" && f != "F10" {
+                        if f != "F9" && f != "F9b" && f != "F9c" && f != "F3" && f != "F1" && f != "F10" && f != "F11" {
                             continue;
                         }
                     }
